@@ -14,6 +14,9 @@ sys.path.insert(0, VERIF)
 from tools.mutant_list import MUTANTS   # noqa
 
 
+NPROC = 0
+
+
 def run_one(m, tier, keep=False):
     tmp = tempfile.mkdtemp(prefix='vfmut_')
     try:
@@ -26,6 +29,8 @@ def run_one(m, tier, keep=False):
         text = text.replace(m['old'], m['new'], 1)
         open(path, 'w').write(text)
         env = dict(os.environ, VERIF_REPO_SRC=src, VERIF_OUT=os.path.join(tmp, 'out'))
+        if NPROC:
+            env['VERIF_NPROC'] = str(NPROC)
         if m.get('units'):
             env['VERIF_UNITS'] = m['units']
         p = subprocess.run([os.path.join(VERIF, 'bin', 'check'), m['prop'], tier],
@@ -44,26 +49,31 @@ def main():
     args = sys.argv[1:]
     tier = 'quick'
     only = None
+    jobs = 1
     props = []
     i = 0
     while i < len(args):
         if args[i] == '--tier':
             tier = args[i + 1]; i += 2
+        elif args[i] == '--jobs':
+            jobs = int(args[i + 1]); i += 2
         elif args[i] == '--only':
             only = args[i + 1]; i += 2
         else:
             props.append(args[i].upper()); i += 1
     res = []
-    for m in MUTANTS:
-        if props and m['prop'] not in props:
-            continue
-        if only and only not in m['name']:
-            continue
-        st, tail = run_one(m, tier)
-        print('%-9s %-4s %s' % (st, m['prop'], m['name']), flush=True)
-        if st != 'KILLED':
-            print('     ' + tail.replace('\n', '\n     '))
-        res.append({'prop': m['prop'], 'name': m['name'], 'status': st})
+    todo = [m for m in MUTANTS if not (props and m['prop'] not in props)
+            and not (only and only not in m['name'])]
+    global NPROC
+    if jobs > 1:
+        NPROC = max(2, 16 // jobs)
+    import concurrent.futures as cf
+    with cf.ThreadPoolExecutor(max_workers=jobs) as ex:
+        for m, (st, tail) in zip(todo, ex.map(lambda m: run_one(m, tier), todo)):
+            print('%-9s %-4s %s' % (st, m['prop'], m['name']), flush=True)
+            if st != 'KILLED':
+                print('     ' + tail.replace('\n', '\n     '))
+            res.append({'prop': m['prop'], 'name': m['name'], 'status': st})
     out = os.path.join(VERIF, 'selftest_results.json')
     old = []
     if os.path.exists(out):
